@@ -49,6 +49,7 @@ class Gen:
         self.nlabels = 0
         self.fns = []       # dict(body, exprY, dfn)
         self.dops = []      # deferred closures: dict(ops, go)
+        self.ncap = 0
         self.plan = []      # plan[fi] = True: function fi is a D function (deferred calls, blocking return)
         self.kinds = {}
 
@@ -189,6 +190,7 @@ class Gen:
             w["block"] = 0.4
             if ctx["ld"] < 2:
                 w["loop"] = 2.5
+                w["caploop"] = 1.6
         if may_branch:
             if ctx["brk"]:
                 w["break"] = 1.5
@@ -241,6 +243,8 @@ class Gen:
             return self.gen_switch(ctx)
         if k == "loop":
             return self.gen_loop(ctx)
+        if k == "caploop":
+            return self.gen_caploop(ctx)
         raise AssertionError(k)
 
     def gen_if(self, ctx, nclauses):
@@ -308,6 +312,95 @@ class Gen:
         body = pre + self.stmts(c2, r.randrange(1, 4))
         return ("{", [init, ("L", lab if refs else None, lc, post, body)])
 
+    def new_localcall(self, actid):
+        """call of a local closure whose body is action `actid` (call through a function-typed variable)"""
+        c = dict(kind=4, callee=actid, arg=0, dst=0, k=0, go="localclosure")
+        self.calls.append(c)
+        return len(self.calls) - 1
+
+    def gen_caploop(self, ctx):
+        """a loop whose HEADER variables (for-init variable, range key / value) and body variable are captured by
+        closures / address-taken before a yield and used after it, with writes on both sides; a closure stored in the
+        loop is called after the loop"""
+        r = self.rng
+        ld = ctx["ld"]
+        cv = 4 + ld
+        used = ctx.get("capused", frozenset())
+        free = [x for x in (6, 7) if x not in used]
+        kind = "range" if len(free) == 2 and r.random() < 0.45 else "for3"
+        self.count("caploop:" + kind)
+        self.ncap += 1
+        capid = self.ncap
+        lab = self.new_label() if r.random() < 0.3 else None
+        refs = []
+        bound = r.randrange(2, 4)
+        init = self.new_act(dst=cv, x=ZERO, y=ZERO, k=0, p=0)
+        cond = self.new_cond(x=cv, k=0, m=MODV, t=bound, p=0, exprY=False)
+        names = {}
+        pre = []
+        K = r.randrange(1, 20)
+        if kind == "range":
+            names[6], names[7] = "k6", "e7"
+            pre.append(("APRE", self.new_act(dst=6, x=cv, y=ZERO, k=0, p=0), None))
+            pre.append(("APRE", self.new_act(dst=7, x=cv, y=ZERO, k=K, p=0), None))
+            taken = {6, 7}
+            post = ("a", self.new_act(dst=cv, x=cv, y=ZERO, k=1, p=0))
+            capvars = [6, 7]
+            writable = [6, 7]
+        else:
+            names[cv] = "i%d" % cv
+            taken = set()
+            capvars = [cv, cv]
+            writable = []
+            if free:
+                w = free[0]
+                names[w] = "w%d" % w
+                taken = {w}
+                pre.append(("APRE", self.new_act(dst=w, x=cv, y=r.choice([0, 1, 2, 3, ZERO]), k=r.randrange(0, 20), p=0), "decl"))
+                capvars.append(w)
+                writable.append(w)
+            if r.random() < 0.3:
+                post = ("c", self.new_leaf(arg=cv, dst=cv, k=1, go=r.choice([k for k in LEAF_KINDS if k != "deferpanic"])))
+            else:
+                post = ("a", self.new_act(dst=cv, x=cv, y=ZERO, k=1, p=0))
+        if r.random() < 0.5:
+            fv_ = r.choice([1, 2, 3])
+            capvars.append(fv_)
+            writable.append(fv_)
+        info = dict(kind=kind, cv=cv, init=init, names=names, bound=bound, K=K, capid=capid, defs=[], hold=None)
+        c2 = dict(ctx, depth=ctx["depth"] + 1, ld=ld + 1, loops=ctx["loops"] + [(lab, refs)], brk=ctx["brk"] + [(lab, refs)],
+                  capused=frozenset(used | taken))
+        uses = []
+        for j in range(r.randrange(2, 6)):
+            mode = r.choice(["w-closure", "w-ptr", "r-closure", "r-ptr"])
+            v = r.choice(capvars)
+            name = "c%d_%d" % (capid, j)
+            if mode.startswith("w"):
+                if v == cv:
+                    a = self.new_act(dst=cv, x=cv, y=ZERO, k=r.choice([1, 1, 2]), p=1)       # the closure advances the loop variable
+                else:
+                    a = self.new_act(dst=v, x=r.choice(capvars), y=r.choice([0, 1, 2, ZERO]), k=r.randrange(0, 30), p=1)
+            else:
+                a = self.new_act(dst=self.dstvar(), x=v, y=r.choice([0, 1, 2, ZERO]), k=r.randrange(0, 30), p=1)
+            self.count("capture:" + mode)
+            info["defs"].append((mode, name, a))
+            uses.append(("AC", a, mode, name, self.new_localcall(a) if mode.endswith("closure") else None))
+        hv = r.choice(capvars)
+        hold = "hold%d" % capid
+        info["hold"] = (hold, hv)
+        body = list(pre) + [("CAPDEF", info)]
+        body.append(("C", self.new_yield()) if r.random() < 0.6 else ("C", self.new_leaf()))
+        body += self.stmts(c2, r.randrange(0, 3), tail_branch=False)
+        for i, u in enumerate(uses):
+            body.append(u)
+            if r.random() < 0.3:
+                body.append(("C", self.new_yield()))
+        if r.random() < 0.4:
+            body += self.stmts(c2, 1)
+        ha = self.new_act(dst=self.dstvar(), x=hv, y=ZERO, k=r.randrange(0, 9), p=1)
+        after = ("AC", ha, "r-hold", hold, self.new_localcall(ha))
+        return ("{", [("HOLDDECL", hold), ("LC", lab if refs else None, cond, post, body, info), after])
+
     def gen_fn(self, fi, nf):
         exprY = self.rng.random() < 0.25
         ctx = dict(fi=fi, nf=nf, depth=0, ld=0, loops=[], brk=[], exprY=exprY, budget=[self.size])
@@ -322,9 +415,9 @@ class Gen:
         # a recovered panic in a function with UNNAMED results loses the result when a deferred call suspends
         # (known finding C02-panic-zero-result-lost-on-resume, replayed separately): the general stream panics only
         # in functions with named results
-        dfn = dict(named=named, nres=r.choice([1, 1, 2]), panics=named and r.random() < 0.6)
+        dfn = dict(named=named, nres=r.choice([1, 1, 2]), panics=r.random() < (0.6 if named else 0.25))
         self.count("dfn:%s%s" % ("named" if dfn["named"] else "unnamed", ":panics" if dfn["panics"] else ""))
-        ctx = dict(fi=fi, nf=nf, depth=0, ld=0, loops=[], brk=[], exprY=False, budget=[min(self.size, 10)], dfn=dfn)
+        ctx = dict(fi=fi, nf=nf, depth=0, ld=0, loops=[], brk=[], exprY=False, budget=[min(self.size, 10)], dfn=dfn, capused=frozenset({6, 7}))
         body = []
         if dfn["panics"]:
             body.append(("DEFER", self.new_closure(dfn, recover=True, must_yield=r.random() < 0.5)))
@@ -380,7 +473,7 @@ def walk(stmts):
             yield from walk(s[2])
             if s[3] is not None:
                 yield from walk([s[3]])
-        elif k == "L":
+        elif k in ("L", "LC"):
             if s[3] is not None and s[3][0] == "c":
                 yield ("C", s[3][1])
             yield from walk(s[4])
@@ -413,6 +506,8 @@ def call_graph(g, with_yields):
         if not f["dfn"]:
             edges.append(("main.T.CallF%d" % fi, me))
         for s in walk(f["body"]):
+            if s[0] == "AC" and s[4] is not None:
+                intr.add(me)
             if s[0] == "DEFER":
                 cl = g.dops[s[1]]
                 if cl["go"] == "direct":
@@ -471,6 +566,7 @@ def lfp(intr, edges):
 # --------------------------------------------------------------------------------------
 
 def enc_list(g, stmts, blocking_fn):
+    stmts = [x for x in stmts if x[0] not in ("CAPDEF", "HOLDDECL")]
     if not stmts:
         return ["K"]
     if len(stmts) == 1:
@@ -544,6 +640,13 @@ def enc_stmt(g, s, blocking_fn):
     if k == "L":
         post = ["N"] if s[3] is None else ([s[3][0], str(s[3][1])])
         return ["L", lab(s[1]), lab(s[2])] + post + enc_list(g, s[4], blocking_fn)
+    if k == "LC":       # init; loop
+        post = [s[3][0], str(s[3][1])]
+        return ["S", "A", str(s[5]["init"]), "L", lab(s[1]), lab(s[2])] + post + enc_list(g, s[4], blocking_fn)
+    if k == "APRE":
+        return ["A", str(s[1])]
+    if k == "AC":       # a call through a closure variable is a (non-suspending) blocking call site; pointer access is an action
+        return ["C", str(s[4])] if s[4] is not None else ["A", str(s[1])]
     if k == "W":
         # switch { case c1: b1 ... default: d }  →  sw (ite c1 b1 (ite c2 b2 (default)))
         # astrewrite simplifyCaseClauses: a clause ending in `fallthrough` gets the following bodies appended
@@ -694,13 +797,17 @@ class Render:
         self.g = g
         self.y = yields
         self.out = []
+        self.nm = {}        # slot -> Go name override inside capture loops
+
+    def vn(self, v):
+        return self.nm.get(v) or vname(v)
 
     def emit(self, ind, s):
         self.out.append("\t" * ind + s)
 
     def cond(self, cid):
         x, k, m, t, p, ys = self.g.conds[cid]
-        e = "(%s+%d)%%%d < %d" % (vname(x), k, m, t)
+        e = "(%s+%d)%%%d < %d" % (self.vn(x), k, m, t)
         if p:
             e = "cnd(%d, %s)" % (cid, e)
         if ys is not None and self.y:
@@ -709,49 +816,49 @@ class Render:
 
     def act(self, aid, ind, simple=False):
         dst, x, y, k, p, ys = self.g.acts[aid]
-        ye = vname(y)
+        ye = self.vn(y)
         if ys is not None and self.y:
             ye = "yi(%d, %s)" % (ys, ye)
-        st = "%s = (%s + 2*%s + %d) %% 1009" % (vname(dst), vname(x), ye, k)
+        st = "%s = (%s + 2*%s + %d) %% 1009" % (self.vn(dst), self.vn(x), ye, k)
         if simple:
             return st
         self.emit(ind, st)
         if p:
-            self.emit(ind, 'println("a", %d, %s)' % (aid, vname(dst)))
+            self.emit(ind, 'println("a", %d, %s)' % (aid, self.vn(dst)))
 
     def rexpr(self, aid):
         dst, x, y, k, p, ys = self.g.acts[aid]
         if y == ZERO and k == 0:
-            return vname(x)
+            return self.vn(x)
         if y == ZERO:
-            return "(%s + %d) %% 1009" % (vname(x), k)
-        return "(%s + 2*%s + %d) %% 1009" % (vname(x), vname(y), k)
+            return "(%s + %d) %% 1009" % (self.vn(x), k)
+        return "(%s + 2*%s + %d) %% 1009" % (self.vn(x), self.vn(y), k)
 
     def defer(self, did, ind):
         cl = self.g.dops[did]
         ops = cl["ops"]
         if cl["go"] == "direct":
-            self.emit(ind, "defer bumpD(&%s, %d, %d)" % (vname(ops[0][1]), ops[1][1], ops[0][3]))
+            self.emit(ind, "defer bumpD(&%s, %d, %d)" % (self.vn(ops[0][1]), ops[1][1], ops[0][3]))
             return
         if cl["go"] == "method":
-            self.emit(ind, "defer cell{&%s}.Bump(%d, %d)" % (vname(ops[0][1]), ops[1][1], ops[0][3]))
+            self.emit(ind, "defer cell{&%s}.Bump(%d, %d)" % (self.vn(ops[0][1]), ops[1][1], ops[0][3]))
             return
         self.emit(ind, "defer func() {")
         for o in ops:
             if o[0] == "m":
-                self.emit(ind + 1, "%s = (%s*%d + %d) %% 1009" % (vname(o[1]), vname(o[1]), o[2], o[3]))
+                self.emit(ind + 1, "%s = (%s*%d + %d) %% 1009" % (self.vn(o[1]), self.vn(o[1]), o[2], o[3]))
             elif o[0] == "y":
                 if self.y:
                     self.emit(ind + 1, "yield(%d)" % o[1])
             elif o[0] == "p":
-                self.emit(ind + 1, 'println("d", %d, %s)' % (o[1], vname(o[2])))
+                self.emit(ind + 1, 'println("d", %d, %s)' % (o[1], self.vn(o[2])))
             else:
                 self.emit(ind + 1, "recover()")
         self.emit(ind, "}()")
 
     def call_expr(self, cid):
         c = self.g.calls[cid]
-        a = vname(c["arg"])
+        a = self.vn(c["arg"])
         if c["kind"] in (1, 3):
             j = c["callee"]
             return {"direct": "F%d(%s)", "funcvalue": "fF%d(%s)", "method": "tv.CallF%d(%s)"}[c["go"]] % (j, a)
@@ -798,9 +905,9 @@ class Render:
                 self.emit(ind, "t1 = %s" % self.call_expr(cid))
                 self.emit(ind, "t2 = 0")
             self.emit(ind, 'println("D", %d, t1, t2)' % cid)
-            self.emit(ind, "%s = t1" % vname(c["dst"]))
+            self.emit(ind, "%s = t1" % self.vn(c["dst"]))
             return None
-        st = "%s = %s" % (vname(c["dst"]), self.call_expr(cid))
+        st = "%s = %s" % (self.vn(c["dst"]), self.call_expr(cid))
         if simple:
             return st
         self.emit(ind, st)
@@ -845,6 +952,55 @@ class Render:
             self.emit(ind, head)
             self.block(s[4], ind + 1)
             self.emit(ind, "}")
+        elif k == "HOLDDECL":
+            self.emit(ind, "var %s func() int" % s[1])
+        elif k == "LC":
+            info = s[5]
+            if s[1] is not None:
+                self.emit(ind - 1 if ind > 0 else 0, "L%d:" % s[1])
+            old = dict(self.nm)
+            self.nm.update(info["names"])
+            if info["kind"] == "range":
+                elems = ", ".join(str(info["K"] + i) for i in range(info["bound"]))
+                self.emit(ind, "for k6, e7 := range [%d]int{%s} {" % (info["bound"], elems))
+                self.emit(ind + 1, "_, _ = k6, e7")
+            else:
+                init = self.act(info["init"], 0, simple=True).replace(" = ", " := ", 1)
+                post = self.act(s[3][1], 0, simple=True) if s[3][0] == "a" else self.call(s[3][1], 0, simple=True)
+                self.emit(ind, "for %s; %s; %s {" % (init, self.cond(s[2]), post))
+            self.block(s[4], ind + 1)
+            self.emit(ind, "}")
+            self.nm = old
+        elif k == "APRE":
+            if s[2] == "decl":
+                self.emit(ind, self.act(s[1], 0, simple=True).replace(" = ", " := ", 1))
+                self.emit(ind, "_ = %s" % self.vn(self.g.acts[s[1]][0]))
+        elif k == "CAPDEF":
+            info = s[1]
+            for mode, name, aid in info["defs"]:
+                dst, x, y, kk, p, ys = self.g.acts[aid]
+                if mode == "w-closure":
+                    self.emit(ind, "%s := func() { %s }" % (name, self.act(aid, 0, simple=True)))
+                elif mode == "w-ptr":
+                    self.emit(ind, "%s := &%s" % (name, self.vn(dst)))
+                elif mode == "r-closure":
+                    self.emit(ind, "%s := func() int { return %s }" % (name, self.vn(x)))
+                else:
+                    self.emit(ind, "%s := &%s" % (name, self.vn(x)))
+            self.emit(ind, "%s = func() int { return %s }" % (info["hold"][0], self.vn(info["hold"][1])))
+        elif k == "AC":
+            aid, mode, name = s[1], s[2], s[3]
+            dst, x, y, kk, p, ys = self.g.acts[aid]
+            if mode == "w-closure":
+                self.emit(ind, "%s()" % name)
+            elif mode == "w-ptr":
+                self.emit(ind, "*%s = (%s + 2*%s + %d) %% 1009" % (name, self.vn(x), self.vn(y), kk))
+            elif mode in ("r-closure", "r-hold"):
+                self.emit(ind, "%s = (%s() + 2*%s + %d) %% 1009" % (self.vn(dst), name, self.vn(y), kk))
+            else:
+                self.emit(ind, "%s = (*%s + 2*%s + %d) %% 1009" % (self.vn(dst), name, self.vn(y), kk))
+            if p:
+                self.emit(ind, 'println("a", %d, %s)' % (aid, self.vn(dst)))
         elif k == "W":
             if s[1] is not None:
                 self.emit(ind - 1 if ind > 0 else 0, "L%d:" % s[1])
